@@ -289,6 +289,27 @@ def strip_comments(txt):
     return "".join(out)
 
 
+def gen_api():
+    """Extract/Api.v = concatenation of every Extract/Api_<group>.v table."""
+    d = os.path.join(COQ, "Extract")
+    groups = sorted(f[4:-2] for f in os.listdir(d) if f.startswith("Api_") and f.endswith(".v"))
+    txt = "(* GENERATED by harness/framework.py -- do not edit *)\n" \
+          "From Coq Require Import NArith List String.\n" \
+          "From BU Require Import Base.Exn Base.Val Extract.ApiCommon.\n"
+    for g in groups:
+        txt += "From BU Require Extract.Api_%s.\n" % g
+    txt += "Import ListNotations.\n\nSection Api.\n  Variable ask : string -> list val -> val.\n" \
+           "  Definition api : list api_entry :=\n    " + \
+           " ++\n    ".join("Api_%s.api ask" % g for g in groups) + ".\n" \
+           "  Definition dispatch (name : string) (args : list val) : res val :=\n" \
+           "    match lookup name api with Some f => f args | None => Err (Foreign 1) end.\nEnd Api.\n"
+    p = os.path.join(d, "Api.v")
+    old = open(p).read() if os.path.exists(p) else None
+    if old != txt:
+        with open(p, "w") as f:
+            f.write(txt)
+
+
 class BuildResult:
     def __init__(self):
         self.translate_error = None
@@ -314,6 +335,7 @@ def build(clean=False, targets=None):
             br.changed_gen = translate.gen_all()
         except translate.TranslateError as e:
             br.translate_error = str(e)
+        gen_api()
         srcs = coq_sources()
         with open(os.path.join(COQ, "_CoqProject"), "w") as f:
             f.write("-Q . BU\n-arg -w -arg -notation-overridden,-deprecated\n" + "\n".join(srcs) + "\n")
@@ -565,7 +587,7 @@ def main(argv):
 
     # 3. known findings
     known = load_known(prop)
-    preds = importlib.import_module("known_preds")
+    preds = mod
     open_k = [k for k in known if k.get("status") == "open"]
     raw = ctx.divergences + ctx.direct_failures
     unexplained = []
